@@ -370,8 +370,71 @@ def rule_dispatch(ctx, py):
     ctx.floor(R, 4)
 
 
+# dimensioned constructor parameters per class (C20.DIMS): they must be written with their units
+DIMENSIONED = {"rdnetwork.Species": {"D", "density"}, "rdnetwork.Reaction": {"kf", "kr"},
+               "rdgridspace.RDGridSpace": {"cell_vol"}, "rdgraphspace.RDGraphSpaceNode": {"volume"},
+               "rdgraphspace.RDGraphSpaceEdge": {"surface", "distance"}, "rdsystem.RDSystem": {"state"},
+               "rdscript.RDScript": {"t_sample", "time_step", "t_max", "sampling_interval"}}
+WITH_UNITS = ("str", "format_unitvar_for_save", "unitarray_to_dict")
+
+
+def rule_unitstr(ctx, py):
+    """every dimensioned field is written together with its units (a bare number would be re-read in whatever units
+    system the reader resolves for that level)"""
+    R = "C12.UNITSTR"
+    n = 0
+    for rq, wq, cq in PAIRS:
+        if cq not in DIMENSIONED:
+            continue
+        wf = py.fn(wq)
+        obj = pyfe.params(wf)[0]
+        emitted, attrs = writer_info(wf)
+        for k, v in emitted.items():
+            fields = attrs.get(k, set()) & DIMENSIONED[cq]
+            if not fields:
+                continue
+            n += 1
+            okk = isinstance(v, ast.Call) and pyfe.call_name(v).split(".")[-1] in WITH_UNITS and v.args and \
+                pyfe.src(v.args[0]) in ("%s.%s" % (obj, f) for f in fields)
+            ctx.check(okk, R, v, wq, "\"%s\" : %s" % (k, pyfe.src(v)[:60]), "written with explicit units",
+                      "the dimensioned field %s is written as a bare number: the reader interprets it in the units system "
+                      "it resolves for that level, which need not be the one the number was expressed in" % sorted(fields))
+    ctx.floor(R, 12)
+
+
+def rule_traj(ctx, py):
+    """save_rdtrajectory / load_rdtrajectory: every constructor parameter of RDTrajectory is written from the matching
+    attribute and read back from the same key"""
+    R = "C12.TRAJ"
+    sf, lf = py.fn("rdoutput.save_rdtrajectory"), py.fn("rdoutput.load_rdtrajectory")
+    obj = pyfe.params(sf)[0]
+    emitted, attrs = writer_info(sf)
+    ctx.need(emitted, R, "save_rdtrajectory: no emitted dictionary")
+    ctor = [c for c in pyfe.calls_in(lf) if pyfe.call_name(c) == "RDTrajectory"]
+    ctx.need(len(ctor) == 1, R, "load_rdtrajectory: RDTrajectory(...) not found")
+    kw = {k.arg: k.value for k in ctor[0].keywords}
+    from .. import pysym
+    attr_of = {"data": "data", "t_sample": "t", "system": "system", "script": "script",
+               "engine_description": "engine_description", "engine_option": "engine_option", "cgmap": "cgmap"}
+    params = ctor_params(py, "rdoutput.RDTrajectory")
+    for p_ in params:
+        a = attr_of.get(p_, p_)
+        wkeys = [k for k, s_ in attrs.items() if a in s_]
+        v = kw.get(p_)
+        src_ = pysym.isrc(v, lf, stop={pyfe.params(lf)[0], "d"}) if v is not None else ""
+        rkeys = [k for k in emitted if ("d['%s']" % k) in src_ or ("d.get('%s'" % k) in src_]
+        ok = bool(wkeys) and bool(rkeys) and set(wkeys) & set(rkeys)
+        ctx.check(ok, R, v if v is not None else lf, "rdoutput.save_rdtrajectory / load_rdtrajectory",
+                  "RDTrajectory(%s=...)" % p_, "written from .%s under %s and read back from the same key" % (a, wkeys),
+                  "trajectory field `%s` is written under %s but rebuilt from `%s`: a saved trajectory does not come back with "
+                  "its own %s" % (p_, wkeys or "no key", src_[:60] or "nothing", a))
+    ctx.floor(R, 7)
+
+
 def run(ctx):
     py = ctx.py
+    rule_unitstr(ctx, py)
+    rule_traj(ctx, py)
     rule_names(ctx, py, ctx.tier == "thorough")
     rule_arity(ctx, py)
     rule_schema(ctx, py)
